@@ -246,6 +246,10 @@ pub fn finish(
     let replay_dir = root.join("replays").join(info.property);
     let _ = std::fs::create_dir_all(&replay_dir);
     for (sig, g) in stats.violations.iter() {
+        if sig.starts_with("harness/") {
+            println!("MACHINERY-ERROR {}: {}", sig, g.detail.replace('\n', " "));
+            return 2;
+        }
         let is_known = known
             .iter()
             .find(|k| k.property == info.property && &k.signature == sig);
